@@ -87,11 +87,18 @@ Section Model.
     svd_solve_with (L.svd_mut O eps copysign minpos) eps.
 
   (* ---------- RidgeRegression ---------- *)
-  (* rescale_x *)
+  (* rescale_x: column i is rejected ("Cannot rescale constant column") when it is EXACTLY constant,
+     `(1..n).all(|r| x.get(r, i) == x.get(0, i))`, or when `!(|col_std[i] - 0| >= eps)` (which is
+     also true for a NaN deviation: the one-pass variance of a constant column of a non-dyadic
+     value is rounding noise, possibly negative) *)
+  Definition col_constant (X : dm T) (i : nat) : bool :=
+    forallb (fun r => eqb (get X r i) (get X 0 i)) (seq 1 (nrows X - 1)).
+  Definition col_rejected (eps : T) (X : dm T) (col_std : list T) (i : nat) : bool :=
+    col_constant X i || negb (leb eps (abs (sub (nth i col_std zero) zero))).
   Definition rescale_x (eps : T) (X : dm T) : option (dm T * list T * list T) :=
     let col_mean := D.mean O X true in
     let col_std := D.std O X true in
-    if existsb (fun s => ltb (abs (sub s zero)) eps) col_std then None
+    if existsb (col_rejected eps X col_std) (seq 0 (length col_std)) then None
     else match D.scale O X col_mean col_std true with
          | None => None
          | Some Z => Some (Z, col_mean, col_std)
